@@ -68,6 +68,21 @@ def run(ctx):
                 for mode in ("random", "fifo", "ungated"):
                     extra.append(e.scn(sh, pr, "reftgt", opts={"referrers": 1, "reftgt": 1}, bydigest=byd, mode=mode,
                                        refapi_src=rng.choice([0, 1]), refapi_tgt=rng.choice([0, 1]), mount=rng.choice([0, 1])))
+    # a target without referrers API and several referrers of one subject: the PUT of the fall-back tag held back
+    # so that overlapping read-modify-writes (if the client allows them) lose an entry; plus seeded random overlaps
+    for sh, subj in (("art", "M"), ("artidx", "I"), ("artidx", "M1"), ("sha512", "M5"), ("artshare", "A")):
+        for pr in ("tworeg", "samereg", "dir2reg"):
+            for ra in (0, 1):
+                extra.append(e.scn(sh, pr, "fb-overlap", opts={"referrers": 1}, refapi_src=ra, refapi_tgt=0, mode="delay",
+                                   hold=[{"host": "tgt", "class": "manifest_put", "n": "fb:" + subj}]))
+                extra.append(e.scn(sh, pr, "fb-overlap", opts={"referrers": 1}, refapi_src=ra, refapi_tgt=0, mode="random"))
+    # listing orders with digest tags / referrers; a cached client with a history
+    for lo in ("rev", "ins", "rand"):
+        for sh in ("dtag", "loop", "art"):
+            for pr in ("tworeg", "samereg", "reg2dir"):
+                extra.append(e.scn(sh, pr, "listorder", opts={"dtags": 1} if sh != "art" else {"referrers": 1, "dtags": 1},
+                                   listorder=lo, pagesize=0, refapi_src=rng.choice([0, 1])))
+    extra += e.client_history("history")
     res = e.run(scripts + mx + extra, "fault-free")
 
     # 3. validation against (P)
